@@ -13,6 +13,7 @@
 package sio
 
 import (
+	"bytes"
 	"context"
 	"encoding/json"
 	"fmt"
@@ -616,8 +617,12 @@ func ResolveSpecSource(ctx context.Context, specSource interface{}) (*crew.SpecS
 			return nil, nil, fmt.Errorf("empty spec at %s", src.URL)
 		}
 
+		// JSON text can start with white space; what comes after
+		// it tells us what we have.  (Given to the YAML decoder, a
+		// JSON spec loses every property that is not spelled in
+		// lower case: patternSyntax, actionErrorBranches, ...)
 		var spec core.Spec
-		if body[0] == '{' {
+		if text := bytes.TrimLeft(body, " \t\r\n"); 0 < len(text) && text[0] == '{' {
 			err = json.Unmarshal(body, &spec)
 		} else {
 			err = yaml.Unmarshal(body, &spec)
